@@ -7,6 +7,7 @@
     Props/C09/Triples<Op>.lean lalr_triples_<op> (12 × 144 = 1728 operator triples)
     Props/C09/Shapes.lean      sign / as / def / label / reduce / foreach / if / try shapes, no_error_shift
     Props/C09/Lex.lean         op_class_complete, lexOps tables, keywords
+    Props/C09/RoundTrip.lean   print_parse_roundtrip_statement (not proved), roundtrip_instances
   This file: the statements that quantify over ALL byte strings / ALL token sources, the summary
   of the triples, and the statements that are not proved (`…_statement`, with the gap explained).
 
@@ -17,10 +18,10 @@
 -/
 import Gojq.Proofs.Lexer
 import Gojq.Proofs.LALR
-import Gojq.Model.Printer
 import Gojq.Props.C09.Pairs
 import Gojq.Props.C09.Shapes
 import Gojq.Props.C09.Lex
+import Gojq.Props.C09.RoundTrip
 import Gojq.Props.C09.TriplesPipe
 import Gojq.Props.C09.TriplesComma
 import Gojq.Props.C09.TriplesAlt
@@ -86,7 +87,7 @@ theorem lex_depends_on_unread (a b : LState) (h : SameUnread a b) :
   · split
     · exact ⟨rfl, rfl, by simp [commit, SameUnread, hr, hi]⟩
     · split
-      · exact ⟨rfl, rfl, by simp [SameUnread, hr, hi]⟩
+      · exact ⟨rfl, rfl, by simp [SameUnread]⟩
       · exact ⟨rfl, rfl, by simp [commit, SameUnread, hr, hi]⟩
       · exact ⟨rfl, rfl, by simp [commit, SameUnread, hr, hi]⟩
 
@@ -126,8 +127,7 @@ theorem lex_gap_irrelevant (a b : LState) (ha : a.inString = false) (hb : b.inSt
   unfold lex
   simp only [hane, hbne, ha, hb, hn, hn', hr, commit, SameUnread, Bool.false_eq_true, if_false]
   refine ⟨trivial, trivial, ?_, trivial⟩
-  rw [List.drop_add, List.drop_add, hr]  -- drop (w + n) = drop n ∘ drop w
-  all_goals rfl
+  rw [← List.drop_drop, ← List.drop_drop, hr]  -- drop (w + n) = drop n ∘ drop w
 
 /-- ⟦full⟧ `lex_respace`: inserting or deleting white space or comments at a token boundary
     where maximal munch does not merge the neighbours leaves the token list unchanged.
@@ -187,46 +187,17 @@ theorem parse_error_offset_le (src : Bytes) :
   · exact ⟨by omega, h.2⟩
   · trivial
 
+/-- "the reported token fits before the reported offset", executable -/
+def tokenWithinOffset (src : Bytes) : Bool :=
+  match parse src with
+  | .reject _ _ s => decide ((parseError s).token.length ≤ (parseError s).offset)
+  | _ => true
+
 /-- the companion claim "the reported offset is at least the length of the reported token" is
     FALSE of the code: for the one-byte source `\xff` the lexer consumes 1 byte but reports the
     3-byte token U+FFFD (`l.token = string(r)` with r = utf8.RuneError). -/
-theorem error_token_longer_than_offset_counterexample :
-    ¬ (∀ src : Bytes, match parse src with
-        | .reject _ _ s => (parseError s).token.length ≤ (parseError s).offset
-        | _ => True) := by
+theorem error_token_longer_than_offset_counterexample : ¬ (∀ src : Bytes, tokenWithinOffset src = true) := by
   intro h
-  have := h [0xff]
-  revert this
-  decide +kernel
-
-/-! ### 4. `String()` round-trips  — statements, not proved -/
-
-/-- ⟦full⟧ `print_parse_roundtrip`: for every source `Parse` accepts, printing the AST and parsing
-    the text again gives the same AST.  NOT PROVED (LALR-table parsing composed with the printer
-    over all ASTs; DESIGN C09.3 plans it through a token-level fragment with `PrecWF`).  It is
-    covered by search only: oracle `roundtrip` on the real code (corpus, mutants, generated
-    surface-grammar programs) and oracle `adjacency` (every term × suffix × suffix form), and the
-    printer model itself is tied to the code by stream `print`.  The search found, and the
-    repository fixed, two violations (`. .[0]` printed as `.[0]`; `import "" as a;` printed as
-    `include "";`). -/
-def print_parse_roundtrip_statement : Prop :=
-  ∀ (src : Bytes) (t : PT LVal) (s : LState) (q : Sem) (text : Bytes),
-    parse src = .accept t s → sem t = .ok q → Printer.print (src.length + 16) q.val = some text →
-    ∃ t' s' q', parse text = .accept t' s' ∧ sem t' = .ok q' ∧ dump q'.val = dump q.val
-
-/-- the round trip on the model, executable -/
-def roundTrips (b : Bytes) : Bool :=
-  match parse b with
-  | .accept t _ =>
-    match sem t with
-    | .ok q =>
-      match Printer.print (b.length + 16) q.val with
-      | some text =>
-        match parse text with
-        | .accept t' _ => (match sem t' with | .ok q' => dump q'.val == dump q.val | _ => false)
-        | _ => false
-      | none => false
-    | _ => false
-  | _ => false
+  exact absurd (h [0xff]) (by decide +kernel)
 
 end Gojq.C09
